@@ -155,3 +155,12 @@ func verifLemma_C31_id_proto_roundtrip(id FeatureID) {
 	verifrt.Assume(t == FeatureTypePoint || t == FeatureTypePath || t == FeatureTypeArea || t == FeatureTypeRelation || t == FeatureTypeCollection || t == FeatureTypeExpression || t == FeatureTypeInvalid)
 	verifrt.Assert(NewFeatureIDFromProto(NewProtoFromFeatureID(id)) == id, "id-roundtrip")
 }
+
+// ---- abstract view of collection iterators (C24, C16) ------------------------------
+// Uninterpreted in every proof (contract "opaque"); the bodies are never used.
+
+// VerifAnyRank is the position of a key in the order b6.Less / b6.Equal implement.
+func VerifAnyRank(v interface{}) int { return 0 }
+
+// VerifIterKey is the rank of the key of item i of the sequence an iterator walks.
+func VerifIterKey(it Iterator[any, any], i int) int { return 0 }
